@@ -394,6 +394,22 @@ fn format_type_info_internal(
                 ),
             };
 
+            // An access modifier [e.g. `{ read number }`] is followed by a single space, and when the array
+            // type is multiline the indentation belongs in front of the modifier rather than the inner type
+            let (access, leading_trivia) = match access {
+                Some(access) => (
+                    Some(
+                        access
+                            .update_leading_trivia(leading_trivia)
+                            .update_trailing_trivia(FormatTriviaType::Append(vec![Token::new(
+                                TokenType::spaces(1),
+                            )])),
+                    ),
+                    FormatTriviaType::NoChange,
+                ),
+                None => (None, leading_trivia),
+            };
+
             TypeInfo::Array {
                 braces,
                 access,
